@@ -383,3 +383,35 @@ def h_backfill_hwm(c0, n, fin, dup, act_first):
         check(info['used'] == 0, 'all %s tasks finished but usage is %s', n,
               info['used'])
     w.check_all()
+
+
+# ------------------------------------------------------------------------------
+@obligation(params={'named_first': 'bool', 'n_unnamed': (1, 2), 'fin': (0, 2),
+                    'early': 'bool'},
+            timeout={'quick': 200, 'thorough': 400},
+            funcs=['radical/pilot/tmgr/scheduler/backfilling.py:'
+                   'Backfilling.update_tasks'] + FUNCS_B,
+            bounds='Backfilling, pilot p1: a task naming p1 and 1..2 unnamed '
+                   'tasks in one batch (either order), submitted before (early '
+                   'binding) or after the pilot was added; all of them report '
+                   'a finished state in one notification bulk')
+def h_backfill_named(named_first, n_unnamed, fin, early):
+    """early-bound tasks do not disturb the usage accounting"""
+    n_unnamed, fin = conc(n_unnamed, 1, 2), conc(fin, 0, 2)
+    w = World(1)
+    batch = ([1] + [None] * n_unnamed) if named_first \
+            else ([None] * n_unnamed + [1])
+    if early:
+        w.submit(batch)
+    check(w.add([1]), 'add refused')
+    w.pilot_state(1, rps.PMGR_ACTIVE)
+    if not early:
+        w.submit(batch)
+    reach()
+    w.check_all()
+    state = [rps.AGENT_STAGING_OUTPUT_PENDING, rps.DONE, rps.FAILED][fin]
+    w.finish_tasks(1, state)
+    w.check_all()
+    info = w.s._pilots[PIDS[1]]['info']
+    check(info['used'] == 0, 'usage figure %s after all tasks finished',
+          info['used'])
